@@ -732,10 +732,11 @@ def _validate(data, nfds):
     if n < total:
         return Result(INCOMPLETE, need=total)
     fds = seen.get(F_UNIX_FDS, 0)
-    if fds > nfds:
-        raise Invalid("unix-fds-more-than-attached")
-    if fds < nfds:
-        unspec = unspec or "unix-fds-fewer-than-attached"
+    if nfds is not None:
+        if fds > nfds:
+            raise Invalid("unix-fds-more-than-attached")
+        if fds < nfds:
+            unspec = unspec or "unix-fds-fewer-than-attached"
     ts = parse_signature(body_sig)
     bd = Decoder(data, order, hlen, total)
     body = []
